@@ -12,16 +12,32 @@ from . import h_join, oracle, ref, scenario
 
 DEFAULTS = dict(entry='ed_join', nl=1, nr=1, minlen=0, maxlen=3, q=[2], padding=[True],
                 return_set=[False], taus=[1], comp_ops=['<='], missing=False, allow_missing=[False],
-                out_sim_score=[True], n_jobs=[1], filter=None, props=None, lens=None)
+                out_sim_score=[True], n_jobs=[1], filter=None, props=None, lens=None, alphabet=None)
 CHAR_LO, CHAR_HI = 33, 0x24F
 _COUNTER = [0]
 
 
-def sym_string(c, name, minlen, maxlen, lens=None):
+def sym_string(c, name, minlen, maxlen, lens=None, alphabet=None):
     if lens is not None:
         n = symdata.choice(c, name + '.len', lens)
     else:
         n = int(c.int_var(name + '.len', minlen, maxlen)) if minlen < maxlen else maxlen
+    if alphabet:
+        # small-alphabet mode: every character is one of `alphabet` shared symbolic letters
+        # (strings with many repeated q-grams at lengths the unrestricted mode cannot reach)
+        base = c.notes.get('alphabet')
+        if base is None:
+            base = [c.int_var('letter%d' % i, CHAR_LO, CHAR_HI, token=True) for i in range(alphabet)]
+            for i in range(len(base)):
+                for j in range(i + 1, len(base)):
+                    c._assert(base[i].t != base[j].t)
+            c.notes['alphabet'] = base
+        chars = []
+        for i in range(n):
+            ch = c.int_var('%s.c%d' % (name, i), CHAR_LO, CHAR_HI, token=True)
+            c._assert(z3.Or(*[ch.t == b.t for b in base]))
+            chars.append(ch)
+        return SymStr(chars)
     return SymStr([c.int_var('%s.c%d' % (name, i), CHAR_LO, CHAR_HI, token=True) for i in range(n)])
 
 
@@ -45,12 +61,12 @@ def make(cfg_in):
         for i in range(cfg['nl']):
             miss = c.bool_var('L%d.miss' % i) if cfg['missing'] == 'sym' else False
             v = None if (miss is not False and bool(miss)) else sym_string(
-                c, 'L%d' % i, cfg['minlen'], cfg['maxlen'], cfg.get('lens_l') or cfg['lens'])
+                c, 'L%d' % i, cfg['minlen'], cfg['maxlen'], cfg.get('lens_l') or cfg['lens'], cfg['alphabet'])
             lrows.append((1 + i, v, 'L%d.x' % i, 'L%d.y' % i))
         for i in range(cfg['nr']):
             miss = c.bool_var('R%d.miss' % i) if cfg['missing'] == 'sym' else False
             v = None if (miss is not False and bool(miss)) else sym_string(
-                c, 'R%d' % i, cfg['minlen'], cfg['maxlen'], cfg.get('lens_r') or cfg['lens'])
+                c, 'R%d' % i, cfg['minlen'], cfg['maxlen'], cfg.get('lens_r') or cfg['lens'], cfg['alphabet'])
             rrows.append((11 + i, v, 'R%d.x' % i, 'R%d.y' % i))
         cols = ['id', 'attr', 'x', 'y']
         s = dict(entry=cfg['entry'], filter=cfg['filter'], measure='EDIT_DISTANCE', threshold=tau,
@@ -106,6 +122,8 @@ def make(cfg_in):
                     if res.columns != header:
                         viols.append(('C11', 'header', 'columns %r expected %r' % (res.columns, header)))
                     else:
+                        if entry == 'ed_join' and [int(x) for x in res.col('_id')] != list(range(len(res.rows))):
+                            viols.append(('C10', '_id', '_id column is %r' % (res.col('_id'),)))
                         seen = {}
                         for r in res.rows:
                             pk = (r[off], r[off + 1])
@@ -176,6 +194,15 @@ def make(cfg_in):
                                                                  'attr', f, None, None, 'l_', 'r_', False)
                     res = oracle.Result.of(out)
                     seen = set((r[0], r[1]) for r in res.rows)
+                    if cfg['filter'] == 'SizeFilter':
+                        for lrow in lrows:
+                            for rrow in rrows:
+                                nl_, nr_ = len(bagtok.tokenize(lrow[1])), len(bagtok.tokenize(rrow[1]))
+                                pk = (lrow[0], rrow[0])
+                                if (nl_ or nr_) and (pk in seen) != (abs(nl_ - nr_) <= tau) and nl_ and nr_:
+                                    viols.append(('C14', 'ed-size-window', 'SizeFilter(EDIT_DISTANCE,%d).filter_tables '
+                                                  '%s pair %r with q-gram counts %d and %d' % (
+                                                      tau, 'lists' if pk in seen else 'drops', pk, nl_, nr_)))
                     for lrow in lrows:
                         for rrow in rrows:
                             pk = (lrow[0], rrow[0])
@@ -237,9 +264,9 @@ def concretize(s, mdl):
 
 def _ed_tables(c, cfg):
     cols = ['id', 'attr', 'x', 'y']
-    lrows = [(1 + i, sym_string(c, 'L%d' % i, cfg['minlen'], cfg['maxlen'], cfg.get('lens_l') or cfg['lens']),
+    lrows = [(1 + i, sym_string(c, 'L%d' % i, cfg['minlen'], cfg['maxlen'], cfg.get('lens_l') or cfg['lens'], cfg.get('alphabet')),
               'L%d.x' % i, 'L%d.y' % i) for i in range(cfg['nl'])]
-    rrows = [(11 + i, sym_string(c, 'R%d' % i, cfg['minlen'], cfg['maxlen'], cfg.get('lens_r') or cfg['lens']),
+    rrows = [(11 + i, sym_string(c, 'R%d' % i, cfg['minlen'], cfg['maxlen'], cfg.get('lens_r') or cfg['lens'], cfg.get('alphabet')),
               'R%d.x' % i, 'R%d.y' % i) for i in range(cfg['nr'])]
     return cols, lrows, rrows
 
